@@ -11,8 +11,6 @@ Scene kinds (2 labelled frames each, 3-node skeleton, every drawn blob is a Gaus
 """
 from __future__ import annotations
 
-import os
-
 import numpy as np
 
 from props import _c04_reg as R
@@ -166,8 +164,3 @@ def observe(cls, sample, frames, f, i, anchor):
     kps = sample["instance"].reshape(-1, 2).numpy().astype(np.float64)
     src = np.array(fr["instances"][i], dtype=np.float64)
     return sample["instance_image"], kps, src, len(fr["instances"]) == 1
-
-
-def cleanup_np_chunks_dir():
-    """BaseDataset creates np_chunks_path='.' if missing; nothing to clean (cwd always exists)."""
-    return os.getcwd()
